@@ -46,10 +46,13 @@ fn main() {
     macro_rules! dispatch {
         ($id:expr, $call:ident, $($arg:expr),*) => {
             match $id {
+                "C03" => $call(&props::c03::C03, $($arg),*),
                 "C04" => $call(&props::c04::C04, $($arg),*),
                 "C05" => $call(&props::c05::C05, $($arg),*),
                 "C09" => $call(&props::c09::C09, $($arg),*),
+                "C10" => $call(&props::c10::C10, $($arg),*),
                 "C12" => $call(&props::c12::C12, $($arg),*),
+                "C13" => $call(&props::c13::C13, $($arg),*),
                 other => {
                     eprintln!("harness error: unknown property `{}`", other);
                     2
